@@ -101,6 +101,13 @@ Proof.
   cbn in H. apply orb_false_iff in H as [-> H]. cbn. now apply IH.
 Qed.
 
+(* the length check of populate_tree *)
+Lemma all32_Forall (hs : list bytes) : all32 hs = true <-> Forall (fun t => length t = 32%nat) hs.
+Proof.
+  unfold all32. rewrite forallb_forall, Forall_forall.
+  split; intros H x Hx; specialize (H x Hx); [now apply Nat.eqb_eq in H | now apply Nat.eqb_eq].
+Qed.
+
 (* ------------------------------------------------------------------ *)
 Section Bip37P.
 Variable hash256 : bytes -> bytes.
@@ -342,12 +349,13 @@ Qed.
 
 Lemma build_complete :
   (1 <= n)%nat ->
+  all32 (snd (build hash256 txids vmatch)) = true ->
   forall pad, forallb (fun b => b =? 0) pad = true ->
   populate_tree_rec hash256 (Z.of_nat n)
     (map b2z (fst (build hash256 txids vmatch)) ++ pad) (snd (build hash256 txids vmatch)) =
   Ok (consensus_root hash256 txids, map (@rev Z) (sel txids vmatch)).
 Proof.
-  intros Hn pad Hpad. unfold populate_tree_rec, build.
+  intros Hn H32 pad Hpad. unfold populate_tree_rec. rewrite H32. cbn [negb]. unfold build.
   destruct (Z.ltb_spec (Z.of_nat n) 1) as [H|_]; [lia|].
   rewrite Nat2Z.id, <- tree_height_max_depth by exact Hn.
   pose proof (traverse_complete (tree_height txids) 0 pad [] ltac:(lia)) as HT.
@@ -436,6 +444,7 @@ Lemma populate_sound bits hs root proved :
 Proof.
   intros Hn Hhs HP Hroot. unfold populate_tree_rec in HP.
   destruct (Z.ltb_spec (Z.of_nat n) 1) as [H|_]; [lia|].
+  destruct (all32 hs); [|discriminate]. cbn [negb] in HP.
   rewrite Nat2Z.id, <- tree_height_max_depth in HP by exact Hn.
   destruct (traverse hash256 n (tree_height txids) 0 bits hs) as [[[[v ms] b'] h']|] eqn:ET; [|discriminate].
   cbn [bind] in HP. destruct (leftover_ok b' h'); [|discriminate]. injection HP as <- <-.
@@ -443,5 +452,55 @@ Proof.
   destruct (traverse_sound _ _ _ _ _ _ _ _ H0 Hhs ET) as [_ S].
   apply S. rewrite Hroot. now apply consensus_root_calc_hash.
 Qed.
+
+(* size and shape of what the Core builder emits: 32-byte hashes, at most 4n bits and hashes *)
+Section BuildShape.
+Variable vmatch : list bool.
+Notation tb := (traverse_and_build hash256 txids vmatch).
+
+Lemma tb_props : forall h pos, (pos * 2 ^ h < n)%nat ->
+  Forall (fun t => length t = 32%nat) (snd (tb h pos)) /\
+  (length (fst (tb h pos)) <= 2 ^ S h - 1)%nat /\ (length (snd (tb h pos)) <= 2 ^ h)%nat.
+Proof.
+  induction h as [|h IH]; intros pos Hpos.
+  - cbn [traverse_and_build fst snd length Nat.pow]. repeat split; try lia.
+    constructor; [|constructor]. apply calc_hash_len. exact Hpos.
+  - cbn [traverse_and_build]. cbv zeta.
+    destruct (negb (Bip37.parent_of_match txids vmatch (S h) pos)).
+    { cbn [fst snd length]. pose proof (pow2_pos (S h)). pose proof (pow2_pos (S (S h))).
+      rewrite (pow2_S (S h)). repeat split; try lia.
+      constructor; [|constructor]. apply calc_hash_len. exact Hpos. }
+    rewrite pow2_S in Hpos.
+    assert (pos * 2 * 2 ^ h < n)%nat as Hl by lia.
+    destruct (IH _ Hl) as [A1 [B1 C1]].
+    destruct (tb h (pos * 2)%nat) as [b1 h1]. cbn [fst snd] in A1, B1, C1.
+    rewrite calc_tree_width_eq.
+    rewrite (pow2_S (S h)), (pow2_S h). rewrite (pow2_S h) in B1. pose proof (pow2_pos h).
+    destruct (Nat.ltb_spec (pos * 2 + 1) (width n h)) as [Hr|Hr].
+    + apply width_lt in Hr. destruct (IH _ Hr) as [A2 [B2 C2]].
+      destruct (tb h (pos * 2 + 1)%nat) as [b2 h2]. cbn [fst snd] in A2, B2, C2 |- *.
+      rewrite (pow2_S h) in B2.
+      cbn [length]. rewrite !app_length. repeat split; try lia. now apply Forall_app.
+    + cbn [fst snd length]. repeat split; try lia. exact A1.
+Qed.
+
+Lemma height_bound h : (1 <= n)%nat -> is_height h -> (2 ^ S h <= 4 * n)%nat.
+Proof.
+  intros Hn [_ H2]. destruct h as [|k]; [cbn; lia|].
+  specialize (H2 k (Nat.lt_succ_diag_r k)). rewrite !pow2_S. lia.
+Qed.
+
+Lemma build_props : (1 <= n)%nat ->
+  Forall (fun t => length t = 32%nat) (snd (build hash256 txids vmatch)) /\
+  (length (fst (build hash256 txids vmatch)) <= 4 * n)%nat /\
+  (length (snd (build hash256 txids vmatch)) <= 4 * n)%nat.
+Proof.
+  intros Hn. unfold build.
+  assert (0 * 2 ^ tree_height txids < n)%nat as H0 by lia.
+  destruct (tb_props _ _ H0) as [A [B C]].
+  pose proof (height_bound _ Hn tree_height_is_height) as HB.
+  rewrite pow2_S in HB. rewrite pow2_S in B. repeat split; [exact A | lia | lia].
+Qed.
+End BuildShape.
 End Sound.
 End Bip37P.
